@@ -426,6 +426,13 @@ func C15(c *core.Ctx) {
 				step = "gc"
 				rewrote++
 			}
+			// the listed GC-resurrection finding needs a GC rewrite: before the first one a deleted
+			// key coming back is something else and keeps its own signature
+			if withDeletes && rewrote == 0 {
+				w.Sig = "C15|driver|deletes-before-any-gc-rewrite"
+			} else {
+				w.Sig = sig
+			}
 			st := w.CheckInvariance(step)
 			c.Count("invariance.reads_checked", st.Gets+st.IterItems)
 			c.Count("step."+step, 1)
@@ -469,6 +476,9 @@ func C15(c *core.Ctx) {
 				tag := "C15|concurrent|nodeletes"
 				if deletes {
 					tag = "C15|concurrent|deletes"
+					if res.GCOK == 0 {
+						tag = "C15|concurrent|deletes-without-any-gc-rewrite" // not the listed finding: that one needs a rewrite
+					}
 				}
 				reportProbs(c, tag, res.Probs, res.Name)
 				st := hist.CheckReads(c, tag, res.H, res.M)
